@@ -1622,7 +1622,8 @@ func (c *compiler) compileOptionalIndex(e *Term, x *Index) error {
 	}}
 	bind := func(name string, l *Query) *Query {
 		q = &Query{
-			Op: OpPipe, Left: l, Right: q, Patterns: []*Pattern{{Name: name}},
+			Op: OpPipe, Left: &Query{Term: &Term{Type: TermTypeQuery, Query: l}},
+			Right: q, Patterns: []*Pattern{{Name: name}},
 		}
 		return &Query{Term: &Term{Type: TermTypeFunc, Func: &Func{Name: name}}}
 	}
